@@ -578,7 +578,9 @@ func StdTemplate(id string) *corev1.PodTemplateSpec {
 						{MatchExpressions: []corev1.NodeSelectorRequirement{req}},
 						{MatchExpressions: []corev1.NodeSelectorRequirement{req, {Key: FitLabelPrefix + id, Operator: corev1.NodeSelectorOpExists}}},
 					}}}},
-				Tolerations: []corev1.Toleration{{Key: "verif.local/other", Operator: corev1.TolerationOpExists, Effect: corev1.TaintEffectNoSchedule}},
+				// ... and one of the default DaemonSet toleration keys with another effect (it does not cover the default entry)
+				Tolerations: []corev1.Toleration{{Key: "verif.local/other", Operator: corev1.TolerationOpExists, Effect: corev1.TaintEffectNoSchedule},
+					{Key: "node.kubernetes.io/not-ready", Operator: corev1.TolerationOpExists, Effect: corev1.TaintEffectNoSchedule}},
 				Containers:  []corev1.Container{{Name: MainContainer, Image: "img:" + id}, {Name: SideContainer, Image: "side:" + id}},
 			},
 		}
@@ -588,8 +590,19 @@ func StdTemplate(id string) *corev1.PodTemplateSpec {
 		Spec: corev1.PodSpec{
 			NodeSelector: map[string]string{FitLabelPrefix + id: "yes"},
 			Containers:   []corev1.Container{{Name: MainContainer, Image: "img:" + id}, {Name: SideContainer, Image: "side:" + id}},
+			Tolerations:  stdTemplateTolerations(id),
 		},
 	}
+}
+
+// stdTemplateTolerations: template B tolerates "unreachable" for five minutes only - the shape the DefaultTolerationSeconds admission
+// plugin writes; same key as a default DaemonSet toleration, but it does not cover it.
+func stdTemplateTolerations(id string) []corev1.Toleration {
+	if id != "B" {
+		return nil
+	}
+	secs := int64(300)
+	return []corev1.Toleration{{Key: "node.kubernetes.io/unreachable", Operator: corev1.TolerationOpExists, Effect: corev1.TaintEffectNoExecute, TolerationSeconds: &secs}}
 }
 
 func (c *Cluster) identOfTemplate(t *corev1.PodTemplateSpec) string {
